@@ -7,6 +7,13 @@
 // does not say which of two mutually conflicting new points wins, so every choice is allowed). For an
 // allowed outcome: Dropped == #rejected, stored data == pre-existing + all non-`time` fields of the
 // accepted points, observed twice (raw cache/TSM dump, and the public cursor read path).
+//
+// Second family ("combo"): every point kind combines TWO components in ONE point — tag `time`, field `time`, a
+// typed subject field, a string field > 1 MiB, a never-conflicting new float field — with the other field's name
+// sorting before AND after "time" (fields are validated in key order, so which defect is met first differs):
+// subject f < time < value, long l < time < z, new g < time < u. The same statement is transcribed for points with
+// several fields (allowedCombo): a point is rejected iff it has a `time` tag, no field but `time`, a too-long
+// string, or a subject field whose type differs from the winning type of that field name.
 package c40
 
 import (
@@ -16,7 +23,9 @@ import (
 	"sort"
 	"strings"
 	"testing"
+	"time"
 
+	"github.com/influxdata/influxdb/v2/models"
 	"verif/h/shardkit"
 	"verif/h/vlib"
 )
@@ -90,14 +99,20 @@ var kindByName = func() map[string]kindDef {
 
 // Case is one enumerated input.
 type Case struct {
-	Schema string   `json:"schema"` // "" (empty shard) or the type f already has
-	Batch  []string `json:"batch"`  // point kinds, in batch order
+	Fam    string   `json:"fam,omitempty"` // "" = single-defect kinds (kinds()), "combo" = two components per point (combos())
+	Schema string   `json:"schema"`        // "" (empty shard) or the type f (combo: f and value) already has
+	Batch  []string `json:"batch"`         // point kinds, in batch order
 }
+
+const famCombo = "combo"
 
 func (cs Case) String() string {
 	s := cs.Schema
 	if s == "" {
 		s = "empty"
+	}
+	if cs.Fam != "" {
+		s += " family=" + cs.Fam
 	}
 	return "schema=" + s + " batch=[" + strings.Join(cs.Batch, " ") + "]"
 }
@@ -108,15 +123,294 @@ func prePoint(m, schema string) shardkit.PointSpec {
 	return p
 }
 
+// ---------- combo family ----------
+
+// comboDef is a point made of components. Field names: subject f < "time" < value, long l < "time" < z,
+// new g < "time" < u.
+type comboDef struct {
+	name      string
+	timeTag   bool   // tag time=x
+	timeField bool   // field named time (float)
+	subj      string // subject field name ("" = none), pre-existing with the schema type when the schema is not empty
+	subjType  string
+	long      string // name of a string field of 1 MiB + 1 ("" = none)
+	newf      string // name of a float field no other kind gives another type ("" = none)
+}
+
+func (d comboDef) build(m string, p int) shardkit.PointSpec {
+	ps := shardkit.PointSpec{M: m, T: ts(p)}
+	if d.timeTag {
+		ps.Tags = [][2]string{{"time", "x"}}
+	}
+	if d.subj != "" {
+		ps.Fields = append(ps.Fields, shardkit.FieldSpec{Name: d.subj, Type: d.subjType, Val: val(p)})
+	}
+	if d.newf != "" {
+		ps.Fields = append(ps.Fields, shardkit.FieldSpec{Name: d.newf, Type: "float", Val: val(p) + 50})
+	}
+	if d.long != "" {
+		ps.Fields = append(ps.Fields, shardkit.FieldSpec{Name: d.long, Type: "string", Val: val(p), Len: longLen})
+	}
+	if d.timeField {
+		ps.Fields = append(ps.Fields, shardkit.FieldSpec{Name: "time", Type: "float", Val: val(p) + 70})
+	}
+	return ps
+}
+
+var (
+	subjNames = []string{"f", "value"}
+	longNames = []string{"l", "z"}
+	newNames  = []string{"g", "u"}
+)
+
+// combos lists the combo kinds: the plain typed points X(..) and every pairing of two components. extra adds the
+// pairings without a defect of their own (subject + new field, long + new field), triples around the time field,
+// and — with moreTypes — string / boolean subject fields.
+func combos(extra, moreTypes bool) []comboDef {
+	all := combosAll(extra, moreTypes)
+	if extra {
+		return all
+	}
+	// base list: the points with a 1 MiB string are by far the most expensive, so of the kinds that differ only in
+	// an aspect that cannot matter for them one representative is kept: subject + too-long only with the integer
+	// subject (it conflicts with schema float, not with integer / empty), and tag time + too-long only with z (a
+	// point with a time tag is dropped before its fields are looked at). The extended list has them all.
+	var out []comboDef
+	for _, d := range all {
+		if d.long != "" && ((d.subj != "" && d.subjType != "integer") || (d.timeTag && d.long != "z")) {
+			continue
+		}
+		out = append(out, d)
+	}
+	return out
+}
+
+func combosAll(extra, moreTypes bool) []comboDef {
+	types := []string{"float", "integer"}
+	if moreTypes {
+		types = append(types, "string", "boolean")
+	}
+	var subjects []comboDef
+	for _, n := range subjNames {
+		for _, t := range types {
+			subjects = append(subjects, comboDef{name: "X(" + n + ":" + t + ")", subj: n, subjType: t})
+		}
+	}
+	out := append([]comboDef{}, subjects...)
+	with := func(d comboDef, prefix string, f func(*comboDef)) comboDef {
+		f(&d)
+		if d.name == "" {
+			d.name = prefix
+		} else {
+			d.name = prefix + "+" + d.name
+		}
+		return d
+	}
+	var longs, news []comboDef
+	for _, n := range longNames {
+		longs = append(longs, comboDef{name: "L(" + n + ")", long: n})
+	}
+	for _, n := range newNames {
+		news = append(news, comboDef{name: "N(" + n + ")", newf: n})
+	}
+	var second []comboDef // everything a time field / time tag is paired with
+	second = append(second, subjects...)
+	second = append(second, longs...)
+	second = append(second, news...)
+	tf := func(d *comboDef) { d.timeField = true }
+	tt := func(d *comboDef) { d.timeTag = true }
+	for _, d := range second { // time field + {conflicting-or-valid subject, too-long, new valid field}
+		out = append(out, with(d, "TF", tf))
+	}
+	for _, x := range subjects { // type conflict + too-long
+		for _, l := range longNames {
+			d := x
+			d.long, d.name = l, x.name+"+L("+l+")"
+			out = append(out, d)
+		}
+	}
+	out = append(out, with(comboDef{}, "TT+TF", func(d *comboDef) { d.timeTag, d.timeField = true, true })) // time tag + anything
+	for _, d := range second {
+		out = append(out, with(d, "TT", tt))
+	}
+	if extra {
+		for _, x := range subjects {
+			for _, n := range newNames {
+				d := x
+				d.newf, d.name = n, x.name+"+N("+n+")"
+				out = append(out, d)
+			}
+		}
+		for _, l := range longNames {
+			for _, n := range newNames {
+				out = append(out, comboDef{name: "L(" + l + ")+N(" + n + ")", long: l, newf: n})
+			}
+		}
+		for _, x := range subjects {
+			for _, l := range longNames {
+				d := x
+				d.long, d.name = l, x.name+"+L("+l+")"
+				out = append(out, with(d, "TF", tf))
+			}
+		}
+	}
+	return out
+}
+
+var comboByName = func() map[string]comboDef {
+	m := map[string]comboDef{}
+	for _, d := range combosAll(true, true) {
+		if _, dup := m[d.name]; dup {
+			panic("duplicate combo kind " + d.name)
+		}
+		m[d.name] = d
+	}
+	return m
+}()
+
+func comboNames(ds []comboDef) []string {
+	var l []string
+	for _, d := range ds {
+		l = append(l, d.name)
+	}
+	return l
+}
+
+func prePointCombo(m, schema string) shardkit.PointSpec {
+	p := shardkit.PointSpec{M: m, T: 1}
+	for i, n := range subjNames {
+		p.Fields = append(p.Fields, shardkit.FieldSpec{Name: n, Type: schema, Val: int64(7 + i)})
+	}
+	return p
+}
+
+// allowedCombo transcribes the statement for points with several fields. A point is rejected iff it has a tag
+// named time, no field besides `time`, a string field > 1 MiB, or a subject field whose type is not the winning
+// type of that field name. The winning type of a subject name is its pre-existing type or — when the name is new —
+// the type ANY point of the batch without a time tag gives it (the statement does not say which of two mutually
+// conflicting points wins, nor whether a point rejected for another defect may already have fixed the type of a
+// new field: every choice is allowed). The first outcome is "first point wins" for every name.
+func allowedCombo(m string, cs Case) []outcome {
+	cands := make([][]string, len(subjNames))
+	for ni, n := range subjNames {
+		if cs.Schema != "" {
+			cands[ni] = []string{cs.Schema}
+			continue
+		}
+		seen := map[string]bool{}
+		for _, k := range cs.Batch {
+			d := comboByName[k]
+			if d.subj == n && !d.timeTag && !seen[d.subjType] {
+				seen[d.subjType] = true
+				cands[ni] = append(cands[ni], d.subjType)
+			}
+		}
+		if len(cands[ni]) == 0 {
+			cands[ni] = []string{""}
+		}
+	}
+	var out []outcome
+	for _, w0 := range cands[0] {
+		for _, w1 := range cands[1] {
+			win := map[string]string{subjNames[0]: w0, subjNames[1]: w1}
+			o := outcome{winner: subjNames[0] + "=" + w0 + "," + subjNames[1] + "=" + w1, accepted: make([]bool, len(cs.Batch)), why: make([]string, len(cs.Batch)), store: map[string][]shardkit.Val{}}
+			add := func(p shardkit.PointSpec) {
+				for _, f := range p.Fields {
+					if f.Name == "time" {
+						continue
+					}
+					k := shardkit.CompositeKey(p.SeriesKey(), f.Name)
+					o.store[k] = append(o.store[k], shardkit.Val{T: p.T, V: f.Rendered()})
+				}
+			}
+			if cs.Schema != "" {
+				add(prePointCombo(m, cs.Schema))
+			}
+			for i, k := range cs.Batch {
+				d := comboByName[k]
+				var why []string
+				rejected := false
+				if d.timeTag {
+					why, rejected = append(why, "time-tag"), true
+				}
+				if d.timeField {
+					if d.subj == "" && d.long == "" && d.newf == "" {
+						why, rejected = append(why, "time-field-only"), true
+					} else {
+						why = append(why, "time-field")
+					}
+				}
+				if d.long != "" {
+					why, rejected = append(why, "too-long"), true
+				}
+				if d.subj != "" && d.subjType != win[d.subj] {
+					why, rejected = append(why, "type-conflict"), true
+				}
+				if rejected {
+					o.rejected++
+					o.why[i] = strings.Join(why, "+")
+				} else {
+					o.accepted[i] = true
+					add(d.build(m, i))
+				}
+			}
+			for k := range o.store {
+				shardkit.SortVals(o.store[k])
+			}
+			out = append(out, o)
+		}
+	}
+	return out
+}
+
+// buildPoint / prePointOf / universe select the family's definitions.
+func buildPoint(cs Case, i int, m string) shardkit.PointSpec {
+	if cs.Fam == famCombo {
+		return comboByName[cs.Batch[i]].build(m, i)
+	}
+	return kindByName[cs.Batch[i]].build(m, i)
+}
+
+func prePointOf(m string, cs Case) shardkit.PointSpec {
+	if cs.Fam == famCombo {
+		return prePointCombo(m, cs.Schema)
+	}
+	return prePoint(m, cs.Schema)
+}
+
+func universe(cs Case) ([][][2]string, []string) {
+	if cs.Fam == famCombo {
+		return universeSeriesCombo, universeFieldsCombo
+	}
+	return universeSeries, universeFields
+}
+
+func knownKinds(cs Case) error {
+	for _, k := range cs.Batch {
+		_, ok := kindByName[k]
+		if cs.Fam == famCombo {
+			_, ok = comboByName[k]
+		}
+		if !ok {
+			return fmt.Errorf("unknown point kind %q of family %q", k, cs.Fam)
+		}
+	}
+	return nil
+}
+
 // outcome allowed by the statement.
 type outcome struct {
 	winner   string // winning type of f ("" when no typed point and empty schema)
 	accepted []bool
 	rejected int
+	why      []string                  // combo family: per rejected point, the reasons ("" = accepted); nil for the first family
 	store    map[string][]shardkit.Val // composite key → values
 }
 
 func allowed(m string, cs Case) []outcome {
+	if cs.Fam == famCombo {
+		return allowedCombo(m, cs)
+	}
 	var cands []string
 	if cs.Schema != "" {
 		cands = []string{cs.Schema}
@@ -164,6 +458,41 @@ func allowed(m string, cs Case) []outcome {
 	return out
 }
 
+// buildPoints is shardkit.Points with the 1 MiB strings taken from a cache (same values as FieldSpec.GoValue:
+// building them anew for every point dominated the run time).
+var longStrings = map[[2]int64]string{}
+
+func buildPoints(specs []shardkit.PointSpec) ([]models.Point, error) {
+	out := make([]models.Point, 0, len(specs))
+	for _, p := range specs {
+		tags := models.Tags{}
+		for _, kv := range p.Tags {
+			tags = append(tags, models.NewTag([]byte(kv[0]), []byte(kv[1])))
+		}
+		sort.Sort(tags)
+		fields := models.Fields{}
+		for _, f := range p.Fields {
+			if f.Type == "string" && f.Len > 0 {
+				key := [2]int64{f.Val % 26, int64(f.Len)}
+				v, ok := longStrings[key]
+				if !ok {
+					v = f.GoValue().(string)
+					longStrings[key] = v
+				}
+				fields[f.Name] = v
+				continue
+			}
+			fields[f.Name] = f.GoValue()
+		}
+		pt, err := models.NewPoint(p.M, tags, fields, time.Unix(0, p.T))
+		if err != nil {
+			return nil, err
+		}
+		out = append(out, pt)
+	}
+	return out, nil
+}
+
 // observation of the real shard.
 type observed struct {
 	err     string
@@ -176,6 +505,8 @@ type observed struct {
 
 var universeSeries = [][][2]string{nil, {{"time", "x"}}, {{"t", "\xff"}}}
 var universeFields = []string{"a", "f", "s", "time"}
+var universeSeriesCombo = [][][2]string{nil, {{"time", "x"}}}
+var universeFieldsCombo = []string{"f", "g", "l", "time", "u", "value", "z"}
 
 // runFresh executes the case on a fresh shard, measurement "m".
 func runFresh(cs Case) (ob observed) {
@@ -193,8 +524,12 @@ func runFresh(cs Case) (ob observed) {
 // runOn executes the case on measurement m of an open shard (m must be unused so far: the schema and the
 // data of a measurement are independent of every other measurement's).
 func runOn(fx *shardkit.Fixture, m string, cs Case) (ob observed) {
+	if err := knownKinds(cs); err != nil {
+		ob.harness = err.Error()
+		return
+	}
 	if cs.Schema != "" {
-		pts, err := shardkit.Points([]shardkit.PointSpec{prePoint(m, cs.Schema)})
+		pts, err := shardkit.Points([]shardkit.PointSpec{prePointOf(m, cs)})
 		if err != nil {
 			ob.harness = "pre point: " + err.Error()
 			return
@@ -205,10 +540,10 @@ func runOn(fx *shardkit.Fixture, m string, cs Case) (ob observed) {
 		}
 	}
 	var specs []shardkit.PointSpec
-	for i, k := range cs.Batch {
-		specs = append(specs, kindByName[k].build(m, i))
+	for i := range cs.Batch {
+		specs = append(specs, buildPoint(cs, i, m))
 	}
-	pts, err := shardkit.Points(specs)
+	pts, err := buildPoints(specs)
 	if err != nil {
 		ob.harness = "points: " + err.Error()
 		return
@@ -233,8 +568,9 @@ func runOn(fx *shardkit.Fixture, m string, cs Case) (ob observed) {
 		}
 	}
 	ob.reads = map[string][]shardkit.Val{}
-	for _, tags := range universeSeries {
-		for _, fld := range universeFields {
+	uSeries, uFields := universe(cs)
+	for _, tags := range uSeries {
+		for _, fld := range uFields {
 			vs, _, err := fx.ReadField(m, tags, fld)
 			if err != nil {
 				ob.harness = "read: " + err.Error()
@@ -293,7 +629,7 @@ func diffStore(cs Case, o outcome, got map[string][]shardkit.Val, via string) []
 			kind, acc, inBatch := owner(v.T)
 			switch {
 			case inBatch && !acc:
-				out = append(out, mismatch{vlib.JoinSig("rejected-point-stored", via, "reason="+reasonOf(kind)), fmt.Sprintf("%s: %q holds %d=%s of rejected point #%d (%s)", via, k, v.T, v.V, v.T-10, kind)})
+				out = append(out, mismatch{vlib.JoinSig("rejected-point-stored", via, "reason="+rejReason(cs, o, int(v.T-10))), fmt.Sprintf("%s: %q holds %d=%s of rejected point #%d (%s)", via, k, v.T, v.V, v.T-10, kind)})
 			case inBatch && keyField(k) == "time":
 				out = append(out, mismatch{vlib.JoinSig("time-field-stored", via), fmt.Sprintf("%s: %q holds %d=%s: the `time` field of accepted point #%d (%s) was not stripped", via, k, v.T, v.V, v.T-10, kind)})
 			default:
@@ -311,6 +647,14 @@ func diffStore(cs Case, o outcome, got map[string][]shardkit.Val, via string) []
 	return out
 }
 
+// rejReason is why point i of the batch is rejected under outcome o.
+func rejReason(cs Case, o outcome, i int) string {
+	if o.why != nil {
+		return o.why[i]
+	}
+	return reasonOf(cs.Batch[i])
+}
+
 func reasonOf(kind string) string {
 	if r := kindByName[kind].reason; r != "" {
 		return r
@@ -320,13 +664,9 @@ func reasonOf(kind string) string {
 
 func reasons(cs Case, o outcome) string {
 	set := map[string]bool{}
-	for i, k := range cs.Batch {
+	for i := range cs.Batch {
 		if !o.accepted[i] {
-			r := kindByName[k].reason
-			if r == "" {
-				r = "type-conflict"
-			}
-			set[r] = true
+			set[rejReason(cs, o, i)] = true
 		}
 	}
 	var l []string
@@ -381,6 +721,13 @@ func obsString(cs Case, ob observed) string {
 
 func batches(ks []string, maxLen int, fn func([]string)) {
 	for n := 1; n <= maxLen; n++ {
+		batchesN(ks, n, fn)
+	}
+}
+
+// batchesN: every batch of exactly n kinds, odometer order.
+func batchesN(ks []string, n int, fn func([]string)) {
+	{
 		idx := make([]int, n)
 		for {
 			b := make([]string, n)
@@ -406,11 +753,17 @@ func batches(ks []string, maxLen int, fn func([]string)) {
 func TestCheck(t *testing.T) {
 	vlib.Main(t, &vlib.Check{
 		ID: "C40", Level: "exploration",
-		Rule: "every batch of 1..3 points, in every order, over the point kinds {F: f float; I: f integer; AF/AI: extra new float field a + f float/integer; TT: tag named time; TO: only a field named time; TF/TI: field time + f float/integer; L: string field s of 1 MiB+1; U: invalid UTF-8 tag value (ValidateKeys on)} [thorough: + S: f string, B: f boolean] × pre-existing schema of measurement m ∈ {empty, f:float, f:integer} [thorough: + f:string], each on a fresh real tsdb.Shard (tsm1+tsi1+series file, WAL on); one Shard.WritePoints per case; observed: returned error/PartialWriteError.Dropped, raw dump of all stored keys/values, cursor reads of every (series, field) of the universe. non-trivial = batches with at least one rejected and one accepted point under the first-point-wins outcome (distinct by construction)",
+		Rule: "every batch of 1..3 points, in every order, over the point kinds {F: f float; I: f integer; AF/AI: extra new float field a + f float/integer; TT: tag named time; TO: only a field named time; TF/TI: field time + f float/integer; L: string field s of 1 MiB+1; U: invalid UTF-8 tag value (ValidateKeys on)} [thorough: + S: f string, B: f boolean] × pre-existing schema of measurement m ∈ {empty, f:float, f:integer} [thorough: + f:string], each on a fresh real tsdb.Shard (tsm1+tsi1+series file, WAL on); one Shard.WritePoints per case; observed: returned error/PartialWriteError.Dropped, raw dump of all stored keys/values, cursor reads of every (series, field) of the universe. " +
+			"Second family (combo: two components in ONE point, the second field's name sorting before and after \"time\" because fields are validated in key order; subject field f < time < value of type float/integer, string of 1 MiB+1 named l < time < z, new float field g < time < u): " +
+			"every batch of 1..2 points, in every order, over the 24 kinds {X(n:t): plain subject field (4); TF+X: field time + subject field (4); TF+L: field time + too-long string (2); TF+N: field time + new valid field (2); " +
+			"X+L: integer subject field + too-long string (4: f/value x l/z); TT+TF, TT+X (4), TT+L(z), TT+N (2): tag time + each of these (8)} × pre-existing schema {empty, float, integer} given to BOTH subject fields " +
+			"[thorough: batches of 1..3 over these kinds, and batches of 1..2 over the extended list of 85 kinds (+ string/boolean subject types, every subject type in X+L, TT+L(l), X+N, L+N, TF+X+L), × the 4 schemas]; same oracle, a point being rejected iff it has a time tag, no field but time, " +
+			"a too-long string or a subject field whose type is not the winning type of that name. The two families alternate per batch length (shortest first). non-trivial = batches with at least one rejected and one accepted point under the first-point-wins outcome (distinct by construction)",
 		Assumptions: []string{
 			"when two points of one batch give a NEW field different types the statement does not say which is rejected: any single winning type is accepted",
 			"a `time` field of an otherwise valid point is not part of the accepted point (error text: 'has been stripped from point'); a nil error or a PartialWriteError with Dropped=0 are both accepted for such a batch",
 			"field schema side effects of rejected points (a new field registered by a point that is then dropped) are not judged: only stored data",
+			"combo family: when a field name is new, the type given to it by ANY point of the batch without a time tag may win, also that of a point rejected for another defect (a too-long point registers the fields sorting before the long one)",
 		},
 		QuickBudgetS: 60, ThoroughBudgetS: 800,
 		Run: func(c *vlib.Ctx) {
@@ -436,17 +789,28 @@ func TestCheck(t *testing.T) {
 			}
 			defer closeFx()
 			var idx int64
-			batches(ks, 3, func(b []string) {
+			// combo family: batches of 1..2 (thorough: 1..3 over the base combo kinds, 1..2 over the extended ones)
+			cks, cksWide := comboNames(combos(false, false)), []string(nil)
+			comboMax := 2
+			if c.Thorough() {
+				cksWide, comboMax = comboNames(combos(true, true)), 3
+			}
+			stopped := false
+			visit := func(fam string, b []string) {
 				for _, sch := range schemas {
+					if stopped {
+						return
+					}
 					idx++
 					if !c.Mine(idx) {
 						continue
 					}
 					if c.Expired() {
-						c.Cap("budget expired; batches are enumerated shortest first")
+						c.Cap("budget expired; batches are enumerated shortest first, the two families alternating per batch length")
+						stopped = true
 						return
 					}
-					cs := Case{Schema: sch, Batch: append([]string(nil), b...)}
+					cs := Case{Fam: fam, Schema: sch, Batch: append([]string(nil), b...)}
 					if fx == nil || used >= recycle {
 						closeFx()
 						fxDir = vlib.Scratch("c40-")
@@ -504,6 +868,9 @@ func TestCheck(t *testing.T) {
 						c.NontrivialN(1)
 					}
 					oc := fmt.Sprintf("accepted=%d,rejected=%d", len(cs.Batch)-ob.dropped, ob.dropped)
+					if fam != "" {
+						oc = fam + ":" + oc
+					}
 					switch {
 					case ob.err == "":
 						oc += ",err=nil"
@@ -523,7 +890,18 @@ func TestCheck(t *testing.T) {
 						c.Sample(map[string]any{"case": cs, "dropped": ob.dropped, "error": ob.err, "stored": shardkit.RawString(ob.raw)})
 					}
 				}
-			})
+			}
+			for n := 1; n <= 3 && !stopped; n++ {
+				batchesN(ks, n, func(b []string) { visit("", b) })
+				if n > comboMax {
+					continue
+				}
+				if n <= 2 && cksWide != nil { // thorough, lengths 1..2: the extended kind list (a superset of the base list)
+					batchesN(cksWide, n, func(b []string) { visit(famCombo, b) })
+				} else {
+					batchesN(cks, n, func(b []string) { visit(famCombo, b) })
+				}
+			}
 		},
 		Replay: func(c *vlib.Ctx, raw json.RawMessage) (bool, string) {
 			var cs Case
